@@ -146,8 +146,65 @@ PROFILE = {'weights': {'transfer': 6, 'container': 2, 'plate': 1, 'remove': 1, '
            'dup_wells': True}
 
 
+def twins_case(col, pp, case):
+    """Two different substances that share a name (an anhydrous salt and its hydrate, two grades of a solvent): the
+    library tells them apart by molar mass / density, so each is conserved on its own.  First principles: the stored
+    amounts of each (name, molar mass, density), summed over all vessels, before and after."""
+    core.env.clear_caches()
+    col.case()
+    col.label('twins')
+    mk = (lambda mw, d: pp.Substance.liquid('X', mw, d)) if case['kind'] == 'liquid' else (lambda mw, d: pp.Substance.solid('X', mw))
+    s1, s2 = mk(case['mw1'], case['d1']), mk(case['mw2'], case['d2'])
+    other = pp.Substance.liquid('water', 18.0153, 1.0)
+    a = pp.Container('a', initial_contents=[(s1, case['q1']), (other, '1 mL')])
+    b = pp.Container('b', initial_contents=[(s2, case['q2'])])
+    plate = pp.Plate('p', '50 mL', rows=1, columns=2)
+
+    def totals(objs):
+        t = {}
+        for o in objs:
+            for c in ([o] if isinstance(o, pp.Container) else list(o.wells.flatten())):
+                for sub, amt in c.contents.items():
+                    k = (sub.name, sub.mol_weight, sub.density)
+                    t[k] = t.get(k, 0.0) + amt
+        return t
+    try:
+        if case['form'] == 'c2c':
+            before = totals([a, b])
+            after = totals(pp.Container.transfer(a, b, case['q']))
+        else:
+            # b's substance goes into the wells first, then a is dispensed on top of it
+            b2, plate2 = pp.Plate.transfer(b, plate, case['qb'])
+            before = totals([a, plate2])
+            after = totals(pp.Plate.transfer(a, plate2, case['q']))
+    except ValueError:
+        col.label('twins:refused')
+        return
+    for k in set(before) | set(after):
+        x, y = before.get(k, 0.0), after.get(k, 0.0)
+        if abs(x - y) > 1e-9 + 1e-12 * abs(x):
+            col.report(f"same-named-substances/not-conserved/{case['form']}/{case['kind']}",
+                       {'substance': list(k), 'before': x, 'after': y}, dict(case, twins=True))
+            return
+    col.nontrivial_key(f"twins|{case['form']}|{case['kind']}|{case['q'].split()[1]}")
+
+
 def run(col):
     pp = core.env.bootstrap()
+    if col.shard % 4 == 0:
+        from hypothesis import given, strategies as st
+
+        def t_twins():
+            @given(st.sampled_from(['liquid', 'solid']), st.sampled_from(['c2c', 'c2p']), st.integers(20, 400), st.integers(20, 400),
+                   st.integers(5, 30), st.integers(5, 30), st.integers(1, 9), st.sampled_from(['mL', 'g', 'mmol', 'uL', 'mg']))
+            def test(kind, form, mw1, mw2, d1, d2, tenth, unit):
+                if mw1 == mw2:
+                    mw2 += 1
+                size = {'mL': 1.0, 'g': 1.0, 'mmol': 5.0, 'uL': 1000.0, 'mg': 1000.0}[unit]
+                twins_case(col, pp, {'kind': kind, 'form': form, 'mw1': float(mw1), 'mw2': float(mw2), 'd1': d1 / 10, 'd2': d2 / 10,
+                                     'q1': '2 g', 'q2': '1 g', 'qb': '0.25 g', 'q': f"{round(size * tenth / 10, 4)} {unit}"})
+            return test
+        core.run_property(col, t_twins, budget(15, 150, col.tier), tag='twins')
     prof = dict(PROFILE)
     prof['max_dim'] = 4 if col.tier == 'quick' else (4 if col.shard % 4 else 8)
     mon = Conserve(col)
@@ -164,4 +221,6 @@ def replay(col, case):
     if case.get('program'):
         from engines import programs
         return programs.replay_c01(col, pp, case)
+    if case.get('twins'):
+        return twins_case(col, pp, case)
     benchmachine.replay_history(col, pp, case, Conserve(col))
